@@ -299,8 +299,7 @@ impl<R> Decoder<R> {
         let previous_bytes = self.iter.elapsed_bytes();
         debug_assert!(previous_bytes <= current_bytes);
 
-        let seek = -i64::try_from(current_bytes - previous_bytes)
-            .expect("Cannot seek back more than i64::MAX bytes");
+        let seek = seek_back_offset(current_bytes - previous_bytes)?;
         self.reader.seek(std::io::SeekFrom::Current(seek))?;
 
         Ok(())
@@ -315,8 +314,7 @@ impl<R> Decoder<R> {
     where
         R: Seek,
     {
-        let seek = -i64::try_from(self.iter.elapsed_bytes())
-            .expect("Cannot seek back more than i64::MAX bytes");
+        let seek = seek_back_offset(self.iter.elapsed_bytes())?;
         self.reader.seek(std::io::SeekFrom::Current(seek))?;
 
         self.iter = SurfaceIterator::new(self.layout);
@@ -349,5 +347,19 @@ impl<R> Decoder<R> {
     /// Returns the underlying reader.
     pub fn into_reader(self) -> R {
         self.reader
+    }
+}
+
+/// Returns the relative seek offset for going back `bytes` bytes.
+///
+/// Offsets larger than `i64::MAX` cannot be expressed as a single relative
+/// seek and result in an IO error.
+fn seek_back_offset(bytes: u64) -> std::io::Result<i64> {
+    match i64::try_from(bytes) {
+        Ok(bytes) => Ok(-bytes),
+        Err(_) => Err(std::io::Error::new(
+            std::io::ErrorKind::InvalidInput,
+            "cannot seek back more than i64::MAX bytes",
+        )),
     }
 }
